@@ -23,6 +23,9 @@ BODIES = {
     "sleep-long": PID + "import time\ntime.sleep(30.0 + channel.receive())\n",
     "busy": PID + "while True:\n    pass\n",
     "swallow": PID + "import time\nwhile True:\n    try:\n        time.sleep(1000)\n    except KeyboardInterrupt:\n        pass\n",
+    # the executed code replaced / ignores the SIGINT handler: only the final os._exit rung ends it
+    "sighandler": PID + "import signal, time\nsignal.signal(signal.SIGINT, lambda *a: None)\nwhile True:\n    time.sleep(0.2)\n",
+    "sigign": PID + "import signal, time\nsignal.signal(signal.SIGINT, signal.SIG_IGN)\nwhile True:\n    time.sleep(0.2)\n",
     "extra0": PID + "import threading\ndef spin():\n    while True:\n        pass\nthreading.Thread(target=spin, daemon=True).start()\n",
     "extra1": PID + "import time\ntime.sleep(0.4)\n",
     "transfer-in": PID + "while True:\n    channel.receive()\n",
